@@ -56,6 +56,14 @@
 #ifndef OP
 #define OP OP_FIND
 #endif
+/* -DENV_PRE=1: rely step at EVERY acquisition of the read lock: before the lock is granted another thread runs the real
+ * resize (rw_hash replaced by a twice larger generation, the old one linked behind it).  Together with the rely step at
+ * the write-lock acquisition (OP_*_ENV) this covers every point at which I do not hold the table lock; what happened
+ * before the call is covered by the arbitrary well-formed pre-state.  Anything the operation read from the table BEFORE
+ * it holds the read lock is stale afterwards. */
+#ifndef ENV_PRE
+#define ENV_PRE 0
+#endif
 #if   OP == OP_FIND
 #define OPN "find"
 #elif OP == OP_REMOVE
@@ -168,14 +176,21 @@ static int g_rd, g_wr, g_rw_events, g_wr_sections;
 static int g_track;
 static parsec_hash_table_head_t *g_head_base;      /* rw_hash may change only inside a write section */
 static int g_env_resized;
+static int g_first_lock_pending;       /* the next bucket lock is the first one of this read section */
+static uint64_t g_op_hash;             /* key_hash of the key the operation under test works on */
 static void check_head_discipline(void);
+static void env_resize(void);
 void parsec_atomic_rwlock_rdlock(parsec_atomic_rwlock_t *L)
 {
     if (!g_track) return;
     V_ASSERT(L == &ht.rw_lock, OB("guar", "rwlock_is_the_tables_lock"));
     V_ASSERT(g_rd == 0 && g_wr == 0, OB("guar", "no_nested_rwlock_acquisition"));
-    g_rd++; g_rw_events++;
     check_head_discipline();
+#if ENV_PRE
+    if (!g_env_resized) env_resize();
+#endif
+    g_rd++; g_rw_events++;
+    g_first_lock_pending = 1;
 }
 void parsec_atomic_rwlock_rdunlock(parsec_atomic_rwlock_t *L)
 {
@@ -193,11 +208,7 @@ void parsec_atomic_rwlock_wrlock(parsec_atomic_rwlock_t *L)
 #if OP == OP_INSERT_ENV || OP == OP_NL_ENV
     /* environment step (rely: others change rw_hash only inside their own write section, by the real resize):
      * another thread that saw the same over-full bucket resized the table before I obtained the write lock */
-    g_track = 0;
-    parsec_hash_table_resize(&ht);
-    g_track = 1;
-    g_env_resized = 1;
-    g_head_base = ht.rw_hash;
+    env_resize();
 #endif
     g_wr++; g_rw_events++; g_wr_sections++;
 }
@@ -211,14 +222,29 @@ void parsec_atomic_rwlock_wrunlock(parsec_atomic_rwlock_t *L)
 
 /* bucket-lock discipline: first_item / cur_len of a pre-state bucket change only between MY lock and MY unlock of
  * that bucket's lock, and bucket locks are taken only under the read lock */
-static parsec_hash_table_item_t *g_base_first[NG][NBK(NG - 1)];
-static int32_t                   g_base_len[NG][NBK(NG - 1)];
-static uint8_t                   g_locked[NG][NBK(NG - 1)];
+static parsec_hash_table_item_t *g_base_first[NG + 1][NBK(NG)];
+static int32_t                   g_base_len[NG + 1][NBK(NG)];
+static uint8_t                   g_locked[NG + 1][NBK(NG)];
+#define NGT (NG + ENV_PRE)             /* tracked generations: the pre-state ones + the one the environment adds */
 static int g_nheld, g_lock_events, g_foreign_lock_events;
 
 static void check_head_discipline(void)
 {
     if (!g_wr) V_ASSERT(ht.rw_hash == g_head_base, OB("guar", "rw_hash_changes_only_under_write_lock"));
+}
+/* environment step: another thread, holding the write lock, runs the real resize (rely: rw_hash changes only this way) */
+static void env_resize(void)
+{
+    int t = g_track;
+    g_track = 0;
+    parsec_hash_table_resize(&ht);
+    g_track = t;
+    g_env_resized = 1;
+    g_head_base = ht.rw_hash;
+#if ENV_PRE
+    H[NG] = ht.rw_hash; BK[NG] = ht.rw_hash->buckets;
+    for (unsigned b = 0; b < NBK(NG); b++) { g_base_first[NG][b] = BK[NG][b].first_item; g_base_len[NG][b] = BK[NG][b].cur_len; g_locked[NG][b] = 0; }
+#endif
 }
 void verif_env_step(int op, volatile void *loc) { (void)op; (void)loc; }
 void verif_own_step(int op, volatile void *loc, int success)
@@ -227,9 +253,18 @@ void verif_own_step(int op, volatile void *loc, int success)
     if (!g_track) return;
     if (op != V_OP_LOCK && op != V_OP_UNLOCK) return;
     int hit = 0;
-    for (int g = 0; g < NG; g++)
+    if (op == V_OP_LOCK && g_first_lock_pending) {
+        /* the bucket lock a public operation / lock_bucket takes first is the lock of the bucket its key hashes to in the
+         * generation that is current WHILE the read lock is held */
+        g_first_lock_pending = 0;
+        parsec_hash_table_head_t *cur = ht.rw_hash;
+        uint64_t want = ghost_rehash(g_op_hash, (int)cur->nb_bits);
+        V_ASSERT(loc == (volatile void *)&cur->buckets[want].lock,
+                 OB("guar", "first_bucket_lock_is_that_of_the_keys_bucket_in_the_generation_current_under_the_read_lock"));
+    }
+    for (int g = 0; g < NGT; g++)
         for (unsigned b = 0; b < NBK(g); b++)
-            if (loc == (volatile void *)&BK[g][b].lock) {
+            if (BK[g] != NULL && loc == (volatile void *)&BK[g][b].lock) {
                 hit = 1;
                 if (op == V_OP_LOCK) {
                     V_ASSERT(BK[g][b].first_item == g_base_first[g][b] && BK[g][b].cur_len == g_base_len[g][b],
@@ -253,15 +288,17 @@ static void discipline_begin(void)
             g_base_first[g][b] = BK[g][b].first_item; g_base_len[g][b] = BK[g][b].cur_len; g_locked[g][b] = 0;
         }
     g_head_base = ht.rw_hash; g_rd = g_wr = g_rw_events = g_wr_sections = 0; g_nheld = g_lock_events = g_foreign_lock_events = 0;
-    g_env_resized = 0;
+    g_env_resized = 0; g_first_lock_pending = 0;
     g_track = 1;
 }
 static void discipline_end(void)
 {
     g_track = 0;
     int same = 1, held = 0;
-    for (int g = 0; g < NG; g++)
+    V_ASSERT(V_IMPLIES(ENV_PRE, g_env_resized), OB("lemma", "environment_resized_at_my_read_lock_acquisition"));
+    for (int g = 0; g < NGT; g++)
         for (unsigned b = 0; b < NBK(g); b++) {
+            if (BK[g] == NULL) break;
             if (BK[g][b].first_item != g_base_first[g][b] || BK[g][b].cur_len != g_base_len[g][b]) same = 0;
             if (g_locked[g][b]) held = 1;
         }
@@ -560,10 +597,14 @@ void harness(void)
     for (int i = 0; i < NI; i++) expect[i] = pre.cnt[i];
     /* the constructed state is what the view says (sanity of the harness, not of the code) */
     for (int i = 0; i < NI; i++) V_ASSERT(pre.cnt[i] == (present(i) ? 1 : 0) && pre.gen[i] == vin.gen[i], OB("lemma", "constructed_state_matches_view"));
-    const int newest = NG - 1;
+    const int newest = NG - 1 + ENV_PRE;          /* generation that is current while I hold the read lock */
+#if ENV_PRE
+    V_ASSUME(vin.maxbits <= NBITS(NG) + 1);       /* the generation added by the environment is the last one allowed */
+#endif
 
 #if OP == OP_FIND
     discipline_begin();
+    g_op_hash = stub_key_hash((parsec_key_t)vin.probe, NULL);
     void *r = parsec_hash_table_find(&ht, (parsec_key_t)vin.probe);
     discipline_end();
     scan(&post);
@@ -571,11 +612,12 @@ void harness(void)
     V_ASSERT(r == spec_lookup(vin.probe), OB("post", "returns_view_of_key_or_NULL"));
     check_view(&pre, &post, expect, t);
     if (t >= 0) V_ASSERT(post.gen[t] == newest, OB("post", "found_item_is_in_newest_generation_afterwards"));
-    V_ASSERT(post.ngen == NG && g_wr_sections == 0, OB("post", "no_resize"));
+    V_ASSERT(post.ngen == NG + ENV_PRE && g_wr_sections == 0, OB("post", "no_resize"));
     check_wf(&post);
 
 #elif OP == OP_REMOVE
     discipline_begin();
+    g_op_hash = stub_key_hash((parsec_key_t)vin.probe, NULL);
     void *r = parsec_hash_table_remove(&ht, (parsec_key_t)vin.probe);
     discipline_end();
     scan(&post);
@@ -583,7 +625,7 @@ void harness(void)
     V_ASSERT(r == spec_lookup(vin.probe), OB("post", "returns_view_of_key_or_NULL"));
     if (t >= 0) expect[t] = 0;
     check_view(&pre, &post, expect, t);
-    V_ASSERT(post.ngen == NG && g_wr_sections == 0, OB("post", "no_resize"));
+    V_ASSERT(post.ngen == NG + ENV_PRE && g_wr_sections == 0, OB("post", "no_resize"));
     check_wf(&post);
 
 #elif OP == OP_INSERT || OP == OP_INSERT_ENV
@@ -591,15 +633,19 @@ void harness(void)
     V_ASSUME(j < NI && !present(j));
     for (int i = 0; i < NI; i++) if (present(i)) V_ASSUME(vin.key[i] != vin.key[j]);     /* PRE: key absent */
     uint64_t bj = ghost_rehash(vin.h[j], NBITS(newest));
-    int len_after = BK[newest][bj].cur_len + 1;
+    int len_after = ENV_PRE ? 1 : BK[NG - 1][bj].cur_len + 1;   /* the environment's new generation is empty */
     int want_resize = len_after > vin.hint && NBITS(newest) + 1 < vin.maxbits;
     discipline_begin();
+    g_op_hash = vin.h[j];
     parsec_hash_table_insert_impl(&ht, &P[j]->hi, "h_ht.c", 1);
     discipline_end();
     scan(&post);
     expect[j] = 1;
     check_view(&pre, &post, expect, j);
     V_ASSERT(post.gen[j] == newest && post.bkt[j] == (int)bj, OB("post", "inserted_into_newest_generation_bucket_of_its_hash"));
+#if ENV_PRE
+    V_ASSERT(!want_resize && post.ngen == NG + 1 && g_wr_sections == 0, OB("post", "no_resize_of_mine_after_the_environments"));
+#else
     V_ASSERT(V_IFF(post.ngen == NG + 1, want_resize), OB("post", "resized_iff_bucket_longer_than_hint_and_below_max_bits"));
     V_ASSERT(V_IFF(g_wr_sections == 1, want_resize) && g_wr_sections <= 1, OB("post", "write_section_iff_resize_wanted"));
 #if OP == OP_INSERT_ENV
@@ -610,6 +656,7 @@ void harness(void)
         V_ASSERT(H[NG]->next == &heads[newest] && post.nonempty[NG] == 0, OB("post", "new_generation_is_empty_and_chained_before_the_old_one"));
         V_ASSERT(heads[newest].used_buckets == count_nonempty(newest), OB("post", "resize_counts_used_buckets_of_the_retired_generation"));
     }
+#endif
     check_wf(&post);
 
 #elif OP == OP_NL_HANDLE || OP == OP_NL_KEY || OP == OP_NL_ENV
@@ -631,6 +678,7 @@ void harness(void)
     int t = spec_index(K);
     void *r = NULL;
     discipline_begin();
+    g_op_hash = hK;
 #if OP == OP_NL_KEY
     parsec_hash_table_lock_bucket(&ht, (parsec_key_t)K);
 #else
@@ -671,6 +719,9 @@ void harness(void)
         V_ASSERT(post.gen[j] == newest && post.bkt[j] == (int)bK, OB("post", "inserted_into_newest_generation_bucket_of_its_hash"));
     }
     check_view(&pre, &post, expect, t);
+#if ENV_PRE
+    V_ASSERT(post.ngen == NG + 1 && g_wr_sections == 0, OB("post", "no_resize_of_mine_after_the_environments"));
+#else
     {
         int want_resize = len_at_unlock > vin.hint && NBITS(newest) + 1 < vin.maxbits;
         V_ASSERT(V_IFF(post.ngen == NG + 1, want_resize), OB("post", "resized_iff_bucket_longer_than_hint_and_below_max_bits"));
@@ -680,6 +731,7 @@ void harness(void)
             V_ASSERT(heads[newest].used_buckets == count_nonempty(newest), OB("post", "resize_counts_used_buckets_of_the_retired_generation"));
         }
     }
+#endif
     check_wf(&post);
 
 #elif OP == OP_RESIZE
